@@ -15,5 +15,9 @@ MANIFEST = {
 def big_scale_down():
     ops = ['addproxy %d %d -' % (i, 10 + (i % 8)) for i in range(1, 200)] + ['addcluster 1 368 1 ?', 'scaledown 1 364'] + ['commitnth 1 0 1'] * 6
     return 'H 0 ; ' + ' ; '.join(ops)
-def run(chk): bc.standard_run(chk, 'C10', extra_histories=[big_scale_down()] if chk.tier == 'thorough' else [])
+def big_scale_out():
+    # 400 -> 404 nodes: floor(16384/200) == floor(16384/202), some sources already own exactly their final share
+    ops = ['addproxy %d %d -' % (i, 10 + (i % 8)) for i in range(1, 215)] + ['addcluster 1 400 1 ?', 'addnodes 1 4 ?', 'migrate 1'] + ['commitnth 1 0 1'] * 4
+    return 'H 0 ; ' + ' ; '.join(ops)
+def run(chk): bc.standard_run(chk, 'C10', extra_histories=[big_scale_out()] + ([big_scale_down()] if chk.tier == 'thorough' else []))
 def replay(data): return bc.replay('C10', data)
